@@ -688,7 +688,7 @@ Proof.
       * destruct (skipn_nth _ _ _ E) as [tl Htl]. exists z, tl. split; auto.
         rewrite nth_error_app1; auto. lia.
       * apply nth_error_None in E. lia.
-    + destruct (IH (off - Zlength r)) as (x & tl & E1 & E2); [lia|].
+    + change (concat d) with (flat d) in *. destruct (IH (off - Zlength r)) as (x & tl & E1 & E2); [lia|].
       exists x, tl. split; auto. rewrite nth_error_app2 by lia.
       rewrite <- E2. f_equal. lia.
 Qed.
@@ -752,10 +752,9 @@ Proof.
   assert (Hg : Zlength pre = 0 \/ get_last 959 d r (Zlength pre) 0 = Ok (last pre 0)).
   { destruct pre as [|z pre']; [left; reflexivity|right].
     apply (get_last0 959 d r (z :: pre') post H); [discriminate|exact Hr|lia]. }
-  rewrite (b64e_fold d cap r (Zlength pre) (last pre 0) Hp0 Hg r [] (Zlength pre) n l (last pre 0));
-    try reflexivity; try assumption; try (rewrite ?Zlength_nil; lia).
-  2: { subst n l. rewrite Zlength_rev. lia. }
-  cbn [bind].
+  assert (HF := b64e_fold d cap r (Zlength pre) (last pre 0) Hp0 Hg r [] (Zlength pre) n l (last pre 0) eq_refl).
+  rewrite Zlength_nil in HF. rewrite HF; [|lia|lia|reflexivity|subst n l; rewrite Zlength_rev; reflexivity|subst n l; rewrite Zlength_rev; lia].
+  clear HF. cbn [bind].
   replace (u64 (Zlength pre + Zlength r)) with (Zlength pre + Zlength r) by (rewrite u64_id; lia).
   assert (Hacc : rev (encf (last pre 0) (Zlength pre) r) ++ l = rev (encf 0 0 (pre ++ r))).
   { subst l. rewrite encf_app, rev_app_distr, Z.add_0_l. reflexivity. }
